@@ -43,6 +43,17 @@ func sortQueue(queues []*Queue, fairMaxResources []*resources.Resource, sortType
 	metrics.GetSchedulerMetrics().ObserveQueueSortingLatency(sortingStart)
 }
 
+// fairMaxByQueue links each queue to its fair max resource: fairMaxResources[i] belongs to queues[i] before sorting.
+func fairMaxByQueue(queues []*Queue, fairMaxResources []*resources.Resource) map[*Queue]*resources.Resource {
+	fairMax := make(map[*Queue]*resources.Resource, len(queues))
+	for i, queue := range queues {
+		if i < len(fairMaxResources) {
+			fairMax[queue] = fairMaxResources[i]
+		}
+	}
+	return fairMax
+}
+
 func sortQueuesByPriority(queues []*Queue) {
 	sort.SliceStable(queues, func(i, j int) bool {
 		l := queues[i]
@@ -54,6 +65,8 @@ func sortQueuesByPriority(queues []*Queue) {
 }
 
 func sortQueuesByPriorityAndFairness(queues []*Queue, fairMaxResources []*resources.Resource) {
+	// the sort moves the queues around: the fair max resource must be looked up by queue, not by slice position
+	fairMax := fairMaxByQueue(queues, fairMaxResources)
 	sort.SliceStable(queues, func(i, j int) bool {
 		l := queues[i]
 		r := queues[j]
@@ -66,8 +79,8 @@ func sortQueuesByPriorityAndFairness(queues []*Queue, fairMaxResources []*resour
 			return false
 		}
 
-		comp := resources.CompUsageRatioSeparately(l.GetAllocatedResource(), l.GetGuaranteedResource(), fairMaxResources[i],
-			r.GetAllocatedResource(), r.GetGuaranteedResource(), fairMaxResources[j])
+		comp := resources.CompUsageRatioSeparately(l.GetAllocatedResource(), l.GetGuaranteedResource(), fairMax[l],
+			r.GetAllocatedResource(), r.GetGuaranteedResource(), fairMax[r])
 
 		if comp == 0 {
 			return resources.StrictlyGreaterThan(resources.Sub(l.GetPendingResource(), r.GetPendingResource()), resources.Zero)
@@ -77,12 +90,14 @@ func sortQueuesByPriorityAndFairness(queues []*Queue, fairMaxResources []*resour
 }
 
 func sortQueuesByFairnessAndPriority(queues []*Queue, fairMaxResources []*resources.Resource) {
+	// the sort moves the queues around: the fair max resource must be looked up by queue, not by slice position
+	fairMax := fairMaxByQueue(queues, fairMaxResources)
 	sort.SliceStable(queues, func(i, j int) bool {
 		l := queues[i]
 		r := queues[j]
 
-		comp := resources.CompUsageRatioSeparately(l.GetAllocatedResource(), l.GetGuaranteedResource(), fairMaxResources[i],
-			r.GetAllocatedResource(), r.GetGuaranteedResource(), fairMaxResources[j])
+		comp := resources.CompUsageRatioSeparately(l.GetAllocatedResource(), l.GetGuaranteedResource(), fairMax[l],
+			r.GetAllocatedResource(), r.GetGuaranteedResource(), fairMax[r])
 		if comp == 0 {
 			lPriority := l.GetCurrentPriority()
 			rPriority := r.GetCurrentPriority()
